@@ -23,6 +23,8 @@ type vecQuery struct {
 	Except   spec.DropSpec `json:"except"`
 	Filter   bool          `json:"filter,omitempty"`
 	Eligible []uint64      `json:"eligible,omitempty"`
+	// OpenFilter: the handle is opened with requiresFiltering although a plain Search is run through it
+	OpenFilter bool `json:"openFilter,omitempty"`
 }
 
 type vecCase struct {
@@ -104,6 +106,9 @@ func genVecQueries(t *rapid.T, s *gen.Schema, want *spec.Obs, nDocs int, n int) 
 				}
 			}
 		}
+		if !q.Filter && gen.Chance(t, ql+"openFilter", 35) {
+			q.OpenFilter = true
+		}
 		out = append(out, q)
 	}
 	return out
@@ -134,7 +139,7 @@ func checkVecQueries(prop, where string, seg segment.Segment, want *spec.Obs, qu
 	var v *Violation
 	err := drive.Safe(func() error {
 		for qi, q := range queries {
-			got, err := vecSearch(seg, q.Field, q.Q, q.K, drive.Bitmap(q.Except), q.Filter, q.Eligible)
+			got, err := vecSearchOpen(seg, q.Field, q.Q, q.K, drive.Bitmap(q.Except), q.Filter || q.OpenFilter, q.Filter, q.Eligible)
 			if err != nil {
 				return fmt.Errorf("query %d: %w", qi, err)
 			}
@@ -267,6 +272,9 @@ var c14 = Check[vecCase]{
 			if len(q.Q) != vf.Dim {
 				cl = append(cl, "wrong-dimension")
 				continue
+			}
+			if q.OpenFilter {
+				cl = append(cl, "plain-search-on-filtering-handle")
 			}
 			if q.Filter {
 				cl = append(cl, "filtered")
